@@ -13,14 +13,15 @@ TB = "{%s}" % NS_TABLE
 OF = "{%s}" % NS_OFFICE
 
 # cell payloads: (value, style); value None = empty cell.  Interned to naturals for the driver:
-VALUES = [None, "a", "b", "c", "d", 7, 42]
+VALUES = [None, "a", "b", "c", "d", 7, 42, 0, True]      # 0: a falsy real value; True: the boolean branch (0 == False in Python, so never both)
 STYLES = [None, "ce1"]
 EMPTY = (None, None)
 
 
 def pay_id(p) -> int:
     v, s = p
-    return VALUES.index(v) * len(STYLES) + STYLES.index(s)
+    vi = next(i for i, w in enumerate(VALUES) if type(w) is type(v) and w == v)      # 0 and False are different payloads
+    return vi * len(STYLES) + STYLES.index(s)
 
 
 def id_pay(i: int):
@@ -199,6 +200,16 @@ def mk_cell(p, rep=1):
     from odfdo import Cell
 
     v, s = p
+    if v is not None and not v:
+        # a falsy but real value (0), written through the property setter: the text is stored inline, the
+        # cell has no text:p child - what `cell.value = 0` and some producers give
+        c = Cell()
+        c.value = v
+        if s:
+            c.style = s
+        if rep > 1:
+            c.repeated = rep
+        return c
     return Cell(v, style=s, repeated=rep if rep > 1 else None)
 
 
@@ -238,6 +249,10 @@ def table_from_rle(cols, rows, how="api"):
                 parts.append(f"<table:table-cell{at}/>")
             elif isinstance(v, str):
                 parts.append(f'<table:table-cell office:value-type="string" calcext:value-type="string"{at}><text:p>{v}</text:p></table:table-cell>')
+            elif v is True:         # these two carry no text:p child: the value attribute alone keeps them
+                parts.append(f'<table:table-cell office:value-type="boolean" office:boolean-value="true"{at}/>')
+            elif v == 0:
+                parts.append(f'<table:table-cell office:value-type="float" office:value="0"{at}/>')
             else:
                 parts.append(f'<table:table-cell office:value-type="float" calcext:value-type="float" office:value="{v}"{at}><text:p>{v}</text:p></table:table-cell>')
         parts.append("</table:table-row>")
